@@ -7,15 +7,16 @@
 (***************************************************************************)
 EXTENDS FallbackRule, TLC, Json
 
-CONSTANTS MaxCaches, Export
+CONSTANTS MaxCaches, Export,
+          MaxOps      \* operations issued one after the other on the same FallbackClient
 
 Reads1 == {"get", "gets"}
 ReadsN == {"get_many", "gets_many"}
 Writes == {"set", "add", "replace", "append", "prepend", "cas", "delete", "incr", "decr", "touch", "flush_all"}
 KindOf(op) == IF op \in Reads1 THEN "read1" ELSE IF op \in ReadsN THEN "readN" ELSE "write"
 
-VARIABLES n, hit, op, pc, i, mon, bad, hist
-vars == <<n, hit, op, pc, i, mon, bad, hist>>
+VARIABLES n, hit, op, pc, i, mon, bad, hist, nops
+vars == <<n, hit, op, pc, i, mon, bad, hist, nops>>
 
 Feed(ev) == LET cl == FMonClauses(mon, ev)
                 f  == { cl[k][1] : k \in { j \in DOMAIN cl : ~cl[j][2] } }
@@ -24,24 +25,27 @@ Feed(ev) == LET cl == FMonClauses(mon, ev)
 Init == /\ n \in 1..MaxCaches
         /\ hit \in [1..MaxCaches -> BOOLEAN]
         /\ \A k \in 1..MaxCaches : k > n => hit[k] = FALSE      \* unused caches: canonical value
-        /\ op \in Reads1 \cup ReadsN \cup Writes
+        /\ op = "none" /\ nops = 0
         /\ pc = "begin" /\ i = 1 /\ bad = {} /\ hist = <<>>
         /\ mon = FMonInit([n |-> n])
 
-Begin == /\ pc = "begin"
-         /\ Feed([e |-> "begin", op |-> op, kind |-> KindOf(op)])
-         /\ pc' = IF KindOf(op) = "write" THEN "write" ELSE "loop"
-         /\ UNCHANGED <<n, hit, op, i>>
+Begin == /\ pc = "begin" /\ nops < MaxOps
+         /\ \E o \in Reads1 \cup ReadsN \cup Writes :
+              /\ op' = o
+              /\ Feed([e |-> "begin", op |-> o, kind |-> KindOf(o)])
+              /\ pc' = IF KindOf(o) = "write" THEN "write" ELSE "loop"
+         /\ nops' = nops + 1 /\ i' = 1
+         /\ UNCHANGED <<n, hit>>
 
 (* self.caches[0].<op>(...) *)
 Write == /\ pc = "write"
          /\ Feed([e |-> "consult", i |-> 1, m |-> op, a |-> "same-args", hit |-> hit[1]])
          /\ pc' = "retw"
-         /\ UNCHANGED <<n, hit, op, i>>
+         /\ UNCHANGED <<n, hit, op, i, nops>>
 RetW == /\ pc = "retw"
         /\ Feed([e |-> "ret", src |-> 0])
-        /\ pc' = "done"
-        /\ UNCHANGED <<n, hit, op, i>>
+        /\ pc' = "begin"
+        /\ UNCHANGED <<n, hit, op, i, nops>>
 
 (* for cache in self.caches: result = cache.<op>(..); if result (is not None): return result *)
 Loop == /\ pc = "loop"
@@ -49,19 +53,19 @@ Loop == /\ pc = "loop"
              THEN /\ Feed([e |-> "consult", i |-> i, m |-> op, a |-> "same-args", hit |-> hit[i]])
                   /\ IF hit[i] THEN pc' = "rethit" /\ i' = i ELSE pc' = "loop" /\ i' = i + 1
              ELSE /\ Feed([e |-> "ret", src |-> 0])
-                  /\ pc' = "done" /\ i' = i
-        /\ UNCHANGED <<n, hit, op>>
+                  /\ pc' = "begin" /\ i' = i
+        /\ UNCHANGED <<n, hit, op, nops>>
 RetHit == /\ pc = "rethit"
           /\ Feed([e |-> "ret", src |-> i])
-          /\ pc' = "done"
-          /\ UNCHANGED <<n, hit, op, i>>
+          /\ pc' = "begin"
+          /\ UNCHANGED <<n, hit, op, i, nops>>
 
-Emit == IF Export /\ pc' = "done"
-          THEN PrintT(<<"EXP", ToJson([n |-> n, hit |-> [k \in 1..n |-> hit[k]], op |-> op, hist |-> hist'])>>)
+Emit == IF Export /\ pc' = "begin" /\ pc # "begin" /\ nops = MaxOps
+          THEN PrintT(ToJson([tag |-> "EXP", n |-> n, hit |-> [k \in 1..n |-> hit[k]], hist |-> hist']))
           ELSE TRUE
 Next == (Begin \/ Write \/ RetW \/ Loop \/ RetHit) /\ Emit
 Spec == Init /\ [][Next]_vars
 
 MonitorOK == bad = {}
-Complete == pc = "done" => FMonFinal(mon)[1][2]
+Complete == pc = "begin" => FMonFinal(mon)[1][2]
 =============================================================================
